@@ -11,8 +11,8 @@
      streamflow.persistence.base.CachedDatabase.__init__             (LRUCache(maxsize=sys.maxsize): no eviction)
      cachebox.cached / cachebox.make_key / postprocess_copy_mutables / postprocess_deepcopy (library, mirrored)
 
-     streamflow.persistence.sqlite._serialized / SqliteDatabase._cache_lock  (commit f4717ad: the six cached getters
-       and their update_* run one at a time; this is why one [step] per operation is faithful also when callers are
+     streamflow.persistence.sqlite._serialized / SqliteDatabase._cache_lock  (commits f4717ad, f092d59: the cached getters
+       that have an update_* (all but get_token: token rows are never updated) and those update_* run one at a time; this is why one [step] per operation is faithful also when callers are
        concurrent -- before it, a getter's SELECT and its cache insertion could enclose an update, see
        DbCache/Proofs.v race_witness)
 
